@@ -195,7 +195,17 @@ impl ProblemCase {
     }
     /// class labels of the shape regime: units of x, long data, many right-hand sides
     pub fn regime(&self) -> Vec<String> {
-        regime_of(&self.spec, self.x.len(), self.y.len())
+        let mut v = regime_of(&self.spec, self.x.len(), self.y.len());
+        let mags: Vec<f64> = self.y.iter().map(|c| c.iter().fold(0.0f64, |m, x| m.max(x.abs()))).collect();
+        let (lo, hi) = (mags.iter().cloned().fold(f64::INFINITY, f64::min), mags.iter().cloned().fold(0.0, f64::max));
+        if hi > 0.0 && lo > 0.0 && hi / lo > 1e6 {
+            v.push("y-units:mixed-across-columns".to_string());
+        } else if hi > 1e4 {
+            v.push("y-units:large".to_string());
+        } else if hi > 0.0 && hi < 1e-4 {
+            v.push("y-units:small".to_string());
+        }
+        v
     }
     pub fn flavour(&self) -> String {
         format!(
@@ -410,6 +420,31 @@ pub fn case_from_raw(cfg: CaseCfg, spec: ModelSpec, raw: RawCase) -> ProblemCase
         let mrhs = s > 1 || flags & 0x101 == 0x101;
         // the raw material repeats after 5 columns: later columns are shifted so that they differ
         let y: Vec<Vec<f64>> = (0..s).map(|c| (0..n).map(|i| ys[(c * 40 + i) % ys.len()] + 0.013 * (c / 5) as f64).collect()).collect();
+        // units of y (the low bits of `collide`; its high bits select the collision class):
+        // 1/16 of the cases: all observations in other units (x 1e±6 .. 1e±18; f32: up to 1e±16);
+        // 1/16 of the cases with several right-hand sides: every column in a unit of its own
+        // (magnitudes spread over up to forty decades, each column comfortably inside the range of
+        // the scalar type)
+        let is_f32_y = cfg.allow_f32 && flags & 4 == 4 && flags & 64 == 64;
+        let mut y = y;
+        if collide & 0xF == 0xF {
+            let exps: &[i32] = if is_f32_y { &[-16, -9, -6, 6, 9, 12] } else { &[-18, -12, -9, -6, 6, 9, 12, 18] };
+            let f = 10f64.powi(exps[((collide >> 4) & 7) as usize % exps.len()]);
+            for col in y.iter_mut() {
+                for v in col.iter_mut() {
+                    *v *= f;
+                }
+            }
+        } else if collide & 0xF == 0xE && s > 1 {
+            let span = if is_f32_y { 16 } else { 20 };
+            for (c, col) in y.iter_mut().enumerate() {
+                let e = (us[(3 * c + 1) % us.len()] as i32 % (2 * span + 1)) - span;
+                let f = 10f64.powi(e);
+                for v in col.iter_mut() {
+                    *v *= f;
+                }
+            }
+        }
         let is_f32 = cfg.allow_f32 && flags & 4 == 4 && flags & 64 == 64;
         let mut w = if cfg.weights { weights_from_raw(wclass, n, &us[16..]) } else { None };
         // 1/32 of the weighted cases: all weights tiny or huge (every singular value of W∘Phi far
